@@ -36,6 +36,7 @@ func init() {
 			{ID: "C16-R12", Title: "the element storage of a container is never replaced by nil", Floor: 1, Run: containerStorageNeverNil},
 			{ID: "C16-R13", Title: "Equals is not short-circuited by comparing the types of two values", Floor: 1, Run: equalsNotShortCircuitedByType},
 			{ID: "C16-R14", Title: "subscripts go through Container.GetItem", Floor: 1, Run: subscriptGoesThroughGetItem},
+			{ID: "C16-R15", Title: "a byte of a string does not stand for a character (shared with C19)", Floor: 1, Run: stringBytesAreNotCharacters},
 		},
 	})
 }
